@@ -52,7 +52,7 @@ def main():
         res["pinned_tests_on_patched_tree"] = ot.strip().splitlines()[-1] if ot.strip() else et[-200:]
         det = {}
         for c in checks:
-            r, o, e = sh(["/verif/vcheck", c, "--tier", tier], env=dict(os.environ, VERIF_REPO=tmp, VERIF_NO_EVIDENCE="1"))
+            r, o, e = sh(["/verif/vcheck", c, "--tier", tier], env=dict(os.environ, VERIF_REPO=tmp, VERIF_NO_EVIDENCE="1", VERIF_REPLAY_ROOT=tmp))
             viol = [l.strip()[:260] for l in o.splitlines() if l.strip().startswith("violation")]
             det[c] = {"exit": r, "detected": r == 1, "violations": viol[:4]}
             if r == 2:
